@@ -42,6 +42,7 @@ pub fn marker_block(h: u64, n_extra_tx: usize, rng: &mut Rng) -> BlockDesc {
             },
         ],
         locktime: h as u32,
+        cs_width: 0,
     });
     for k in 0..n_extra_tx {
         txs.push(TxDesc {
@@ -59,6 +60,7 @@ pub fn marker_block(h: u64, n_extra_tx: usize, rng: &mut Rng) -> BlockDesc {
                 script: Bytes(p2pkh(&marker_addr_hash(h, 1 + k as u64))),
             }],
             locktime: h as u32,
+            cs_width: 0,
         });
     }
     BlockDesc {
@@ -309,6 +311,7 @@ pub fn rich_tx(coin: &str, rng: &mut Rng, sh: &TxShape) -> TxDesc {
         inputs,
         outputs,
         locktime: rng.u32_edge(),
+        cs_width: 0,
     }
 }
 
